@@ -5,6 +5,7 @@ import (
 	"encoding/json"
 	"fmt"
 	"strings"
+	"unicode/utf8"
 
 	"github.com/matrix-org/gomatrixserverlib/spec"
 	"github.com/tidwall/gjson"
@@ -202,6 +203,23 @@ func checkRoomID(res *eventV3) error {
 	//if isCreateEvent && res.eventFields.RoomID != "" {
 	//return fmt.Errorf("gomatrixserverlib: room_id must not exist on create event")
 	//}
+	if isCreateEvent {
+		// The room ID of a create event derives from its event ID, but a room_id member that is
+		// present anyway is still a field of the event and subject to the limits of every ID field.
+		if l := utf8.RuneCountInString(res.eventFields.RoomID); l > maxIDLength {
+			return EventValidationError{
+				Code:    EventValidationTooLarge,
+				Message: fmt.Sprintf("gomatrixserverlib: room ID is too long, length %d > maximum %d", l, maxIDLength),
+			}
+		}
+		if l := len(res.eventFields.RoomID); l > maxIDLength {
+			// (not Persistable: no event is returned, as for the room ID of any other event)
+			return EventValidationError{
+				Code:    EventValidationTooLarge,
+				Message: fmt.Sprintf("gomatrixserverlib: room ID is too long, length %d bytes > maximum %d bytes", l, maxIDLength),
+			}
+		}
+	}
 	if !isCreateEvent && !strings.HasPrefix(res.eventFields.RoomID, "!") {
 		return fmt.Errorf("gomatrixserverlib: room_id must start with !")
 	}
